@@ -13,7 +13,7 @@ RULE = ('one real ActiveObject under virtual (discrete-event) time; 1-4 concurre
         'instants (in a quarter of the runs before start_at); the timer threads, the consumer and the clients are interleaved by the seeded scheduler. "exact" stratum: '
         'timers wake exactly on time (in 40% of the runs some handler invocations sleep for 0.5-6 periods: a chart that falls behind must not change what is posted); "jitter" stratum: every timer sleep is late by a drawn amount (injected fault); in 35% of all runs the wall clock (time.time/datetime.now, not the monotonic clock behind sleep) is stepped back or forth by seconds to an hour while sources run (clock fault: must change nothing). Oracle '
         '(timer calendar): the virtual instants at which each source\'s thread appends to the queue are exactly t0 + k*p '
-        '(k from 1 if deferred, from 0 if not) in the exact stratum, and never earlier than that and with gaps >= p in the '
+        '(k from 1 if deferred, from 0 if not) in the exact stratum, and never earlier than that in the '
         'jitter stratum; exactly n postings for times = n >= 1; for times = 0 exactly the calendar\'s count up to the horizon; '
         'fifo sources append at the back, lifo sources at the front. Non-trivial = a run with >= 2 sources alive at the same '
         'time or an endless source; distinct = distinct (period, times, deferred, kind) sets per run.')
@@ -202,9 +202,8 @@ def judge(sc, run, sim, reason, res):
         if k < len(cal) and t < cal[k]:
           res.violate('timer-early', {}, '%s: posting #%d at %.6f is earlier than its un-jittered instant %.6f' % (desc, k, t / 1e6, cal[k] / 1e6))
           return
-        if k and t - inst[k - 1] < p:
-          res.violate('timer-early', {}, '%s: gap between postings %d and %d is %.6f < period' % (desc, k - 1, k, (t - inst[k - 1]) / 1e6))
-          return
+        # (no demand on the gap after a late posting: a source that keeps to its original calendar posts the next
+        # one on time, less than a period after the late one, and that is what "every p seconds" means as well)
       if not n and hor_us is not None:
         jmax = max(sc['jitter_us'])
         deferred = True if s['deferred'] is None else s['deferred']
